@@ -3,6 +3,9 @@ data shared by the TLA+ side (constants of Meta.tla) and by the adapter, which
 defines the same classes/associations/identifiers through pyxtuml's API."""
 
 
+from . import tlagen
+
+
 def A(rel, src, skeys, scard, tgt, tkeys, tcard, sphrase='', tphrase=''):
     return {'rel': rel, 'src': src, 'skeys': list(skeys), 'smany': 'M' in scard, 'scond': 'C' in scard,
             'sphrase': sphrase, 'tgt': tgt, 'tkeys': list(tkeys), 'tmany': 'M' in tcard,
@@ -109,6 +112,14 @@ SCHEMAS = {
         'assocs': [A('R1', 'G', ['H_Id'], 'MC', 'H', ['Id'], '1C')],
         'uniques': {'H': [U('I1', 'Id')], 'G': [U('I1', 'Id')]},
     },
+    # identifiers that are also SQL keywords / cardinality words
+    'keywords': {
+        'classes': ['M', 'Table'],
+        'attrs': {'M': [at('To', ID), at('TRUE', 'BOOLEAN')],
+                  'Table': [at('Index', ID), at('Values', 'INTEGER'), at('Phrase', 'STRING'), at('From', ID)]},
+        'assocs': [A('R1', 'Table', ['From'], 'MC', 'M', ['To'], '1', sphrase='create', tphrase='insert into')],
+        'uniques': {'M': [U('Unique', 'To')], 'Table': [U('On', 'Index'), U('Rop', 'Values', 'Phrase')]},
+    },
     'reals': {
         'classes': ['M'],
         'attrs': {'M': [at('id', ID), at('x', 'REAL'), at('ok', 'BOOLEAN'), at('n', 'INTEGER')]},
@@ -143,6 +154,9 @@ def constants(schema, maxi, genkind='int', userids=()):
         'Rank': rank_table(schema),
         'Vals': {'INTEGER': {'i:0', 'i:7'}, 'STRING': {'s:a'}, 'BOOLEAN': {'b:1'}, 'UNIQUE_ID': {'u:0', 'u:9'}},
         'Alpha': set(),
+        'RealNorm': dict(REALNORM),
+        'RowChoices': tlagen.SetOf(),
+        'MaxRows': 0,
     }
 
 
@@ -154,6 +168,11 @@ POOLS = {
     'REAL': ['r:-1.5', 'r:0.0', 'r:0.5', 'r:2.25'],
     'UNIQUE_ID': ['u:0'] + ['u:%d' % i for i in range(1, 120)],
 }
+
+
+# reals and the token of what the six-decimal text form reads back as
+REALNORM = {'r:-1.5': 'r:-1.5', 'r:0.0': 'r:0.0', 'r:0.5': 'r:0.5', 'r:2.25': 'r:2.25',
+            'r:0.1234567': 'r:0.123457', 'r:-7.0000004': 'r:-7.0', 'r:1e+20': 'r:1e+20', 'r:12345678.9': 'r:12345678.9'}
 
 
 def rank_table(schema):
